@@ -137,6 +137,12 @@ def nf(tu, n, env=None, depth=0):
                     for prm, av in zip(c['params'], a):
                         env2[prm['id']] = av
                     return nf(tu, tu.kids(sts[0])[0], env2, depth + 1)      # extract-method helper: same term
+                env2 = dict(env)
+                for prm, av in zip(c['params'], a):
+                    env2[prm['id']] = av
+                r_ = eval_body(tu, sts, env2, depth + 1)
+                if r_ is not None:
+                    return r_
         if k == 'CallExpr' and depth < 30:
             c = tu.callee_fn(n)
             if c is not None and c.get('static') and (c.get('rec') or '').startswith('rkcommon::array3D::') and not c['dep'] \
@@ -163,6 +169,81 @@ def nf(tu, n, env=None, depth=0):
     if k == 'CXXThrowExpr':
         return ('throw', sd.get('tty'))
     return ('?', k)
+
+
+def eval_body(tu, sts, env, depth):
+    """value returned by a small helper body made of local declarations, `var = e;`, `if (c) var = e; [else var = e2;]` and a final
+    return: the assignments become conditional expressions.  None if the body has any other statement."""
+    def assign(st):
+        while st is not None and st.get('kind') == 'CompoundStmt' and len(tu.kids(st)) == 1:
+            st = tu.kids(st)[0]
+        e = tu.strip(st) if st is not None else None
+        if e is not None and e.get('kind') == 'BinaryOperator' and e.get('opcode') == '=':
+            l_ = tu.strip(tu.kids(e)[0])
+            if l_ is not None and l_.get('kind') == 'DeclRefExpr':
+                return l_.get('referencedDecl', {}).get('id'), tu.kids(e)[1], l_
+        return None
+    env = dict(env)
+    for i, st in enumerate(sts):
+        k = st.get('kind')
+        if k == 'DeclStmt':
+            for d in tu.kids(st):
+                if d.get('kind') != 'VarDecl' or not tu.kids(d):
+                    return None
+                env[d['id']] = nf(tu, tu.kids(d)[-1], env, depth)
+        elif k == 'IfStmt':
+            parts = [x for x in st.get('inner', []) if isinstance(x, dict) and x.get('kind')]
+            if len(parts) not in (2, 3):
+                return None
+            a1 = assign(parts[1])
+            if a1 is None:
+                return None
+            old = nf(tu, a1[2], env, depth)
+            c_ = nf(tu, parts[0], env, depth)
+            v1 = nf(tu, a1[1], env, depth)
+            v2 = old
+            if len(parts) == 3:
+                a2 = assign(parts[2])
+                if a2 is None or a2[0] != a1[0]:
+                    return None
+                v2 = nf(tu, a2[1], env, depth)
+            env[a1[0]] = ('?:', c_, v1, v2)
+        elif k == 'ReturnStmt':
+            if i != len(sts) - 1 or not tu.kids(st):
+                return None
+            return nf(tu, tu.kids(st)[0], env, depth)
+        else:
+            a1 = assign(st)
+            if a1 is None:
+                return None
+            env[a1[0]] = nf(tu, a1[1], env, depth)
+    return None
+
+
+MINMAX = {'std::min': 'min', 'std::max': 'max', 'rkcommon::math::min': 'min', 'rkcommon::math::max': 'max'}
+
+
+def mm(t):
+    """canonical min / max form: clamp(x, lo, hi) = max(min(x, hi), lo); `a < b ? a : b` = min(a, b) ...; min / max are commutative"""
+    if not isinstance(t, tuple):
+        return t
+    t = tuple(mm(x) for x in t)
+    if t and t[0] == 'cast':
+        return t[2]
+    if t and t[0] == 'call' and strip_targs(t[1]) == 'rkcommon::math::clamp' and len(t[3]) == 3:
+        x, lo, hi = t[3]
+        return ('max', tuple(sorted([('min', tuple(sorted([x, hi], key=repr))), lo], key=repr)))
+    if t and t[0] == 'call' and strip_targs(t[1]) in MINMAX and len(t[3]) == 2:
+        return (MINMAX[strip_targs(t[1])], tuple(sorted(t[3], key=repr)))
+    if t and t[0] == '?:' and len(t) == 4 and isinstance(t[1], tuple) and t[1] and t[1][0] == 'op' and t[1][1] in ('<', '>', '<=', '>=') \
+            and len(t[1][2]) == 2:
+        a, b = t[1][2]
+        less = t[1][1] in ('<', '<=')
+        if (t[2], t[3]) == (a, b):
+            return ('min' if less else 'max', tuple(sorted([a, b], key=repr)))
+        if (t[2], t[3]) == (b, a):
+            return ('max' if less else 'min', tuple(sorted([a, b], key=repr)))
+    return t
 
 
 def drop_casts(t):
@@ -1341,6 +1422,18 @@ def one_period_wrap(e):
     return None
 
 
+def clamp_bounds(c, x):
+    """(lo, hi) if the canonical min/max term c is max(min(x, hi), lo) or min(max(x, lo), hi), else None"""
+    if not (isinstance(c, tuple) and c and c[0] in ('max', 'min') and len(c[1]) == 2):
+        return None
+    other = 'min' if c[0] == 'max' else 'max'
+    for inner, bound in ((c[1][0], c[1][1]), (c[1][1], c[1][0])):
+        if isinstance(inner, tuple) and inner and inner[0] == other and len(inner[1]) == 2 and x in inner[1]:
+            b2 = inner[1][0] if inner[1][1] == x else inner[1][1]
+            return (bound, b2) if c[0] == 'max' else (b2, bound)
+    return None
+
+
 def check_adaptors(ctx, tu):
     R = 'R-C17-5'
     n = 0
@@ -1506,11 +1599,18 @@ def check_adaptors(ctx, tu):
             clampz = ('call', 'rkcommon::math::clamp', None, (z, ('int', 0), ('op', '-', (nsl, ('int', 1)))))
             want_t = ('deref', ('index', ('mem', this, slices), clampz))
             xy0 = ('ctor', 'rkcommon::math::vec_t', (('mem', where, 'x'), ('mem', where, 'y'), ('int', 0)))
+            if target != want_t and mm(target) == mm(want_t):
+                target = want_t          # the same clamp spelled with min / max / conditional assignments (possibly in a helper)
             if target == want_t and arg == xy0:
                 ctx.ok(R, inst, 'slice[clamp(where.z, 0, slice.size() - 1)]->get(vec3i(where.x, where.y, 0))', loc)
             elif target == want_t and arg == where:
                 ctx.violation(R, inst, 'passes `where` (with its z) on to the slice instead of vec3i(where.x, where.y, 0): the cell read is '
                               '(x, y, z) of slice z, which is (x, y, 0) only if the slice happens to collapse z itself', loc, key=key + 'cell')
+            elif target[0] == 'deref' and target[1][0] == 'index' and target[1][1] == ('mem', this, slices) and \
+                    clamp_bounds(mm(target[1][2]), mm(z)) not in (None, (('int', 0), mm(('op', '-', (nsl, ('int', 1)))))):
+                lo_, hi_ = clamp_bounds(mm(target[1][2]), mm(z))
+                ctx.violation(R, inst, 'clamps the slice index to [%s, %s] instead of [0, slice.size() - 1]' % (show(lo_), show(hi_)), loc,
+                              key=key + 'clamp')
             elif target[0] == 'deref' and target[1][0] == 'index' and target[1][1] == ('mem', this, slices):
                 ix = target[1][2]
                 if ix == z:
@@ -1719,6 +1819,73 @@ def check_value_range_override(ctx, tu, f, R):
     ctx.undecided(R, inst, 'override returns %s' % show(t), tu.fn_loc(f))
 
 
+def functor_value_range(tu, f, body):
+    """getValueRange that accumulates in a member of a local functor object handed to for_each (`Extender e{*this, get(begin)};
+    for_each(begin, end, e); return e.range;`).  -> None (not this shape) | ('ok' | 'violation' | 'undecided', text[, key])"""
+    ret = None
+    for st in tu.kids(body):
+        if st.get('kind') == 'ReturnStmt' and tu.kids(st):
+            e = tu.strip(tu.kids(st)[0], casts=True)
+            while e is not None and e.get('kind') == 'CXXConstructExpr' and len(tu.kids(e)) == 1:
+                e = tu.strip(tu.kids(e)[0], casts=True)
+            ret = e
+    if ret is None or ret.get('kind') != 'MemberExpr' or not tu.kids(ret):
+        return None
+    fld = ret.get('name')
+    base = tu.strip(tu.kids(ret)[0])
+    if base is None or base.get('kind') != 'DeclRefExpr' or 'range_t<' not in tu.sd(ret).get('ct', ret.get('type', {}).get('qualType', '')):
+        return None
+    obj = tu.node(base.get('referencedDecl', {}).get('id'))
+    rec = tu.records_by_type.get(tu.sd(base).get('ct', '').replace('const ', '').strip())
+    if obj is None or obj.get('kind') != 'VarDecl' or rec is None:
+        return ('undecided', 'the result is member %s of `%s`, whose class is not in the analysed sources' % (fld, base.get('referencedDecl', {}).get('name')))
+    # seed: how is the member initialised?
+    seed = 'unknown'
+    init = tu.strip(tu.kids(obj)[-1]) if tu.kids(obj) else None
+    names = [x['name'] for x in rec.get('fields', [])]
+    if init is not None and init.get('kind') == 'InitListExpr' and fld in names and len(tu.kids(init)) == len(names):
+        e = tu.kids(init)[names.index(fld)]
+        ctors = [x for x in tu.walk(e) if x.get('kind') in ('CXXConstructExpr', 'CXXTemporaryObjectExpr') and 'range_t' in tu.sd(x).get('q', '')]
+        for c in ctors:
+            args = [a for a in tu.kids(c) if a.get('kind') != 'CXXDefaultArgExpr']
+            if len(args) == 1 and 'range_t' in tu.sd(tu.strip(args[0])).get('ct', tu.strip(args[0]).get('type', {}).get('qualType', '')):
+                continue
+            seed = 'empty' if not args else ('point' if len(args) == 1 and 'EmptyTy' not in args[0].get('type', {}).get('qualType', '') else
+                                             'empty' if len(args) == 1 else 'unknown')
+    # is the object handed to a parallel construct?
+    shared = None
+    for x in tu.walk(body):
+        if x.get('kind') in ('CallExpr', 'CXXMemberCallExpr') and 'id' in x:
+            cq = strip_targs(tu.sd(x).get('q', ''))
+            if any(y.get('kind') == 'DeclRefExpr' and y.get('referencedDecl', {}).get('id') == obj['id'] for y in tu.walk(x)):
+                if cq.startswith('rkcommon::tasking::') or cq.startswith('tbb::') or cq in ('std::async', 'std::thread::thread'):
+                    shared = cq
+    # updates of the member inside the functor's own methods
+    extends = others = 0
+    locked = True
+    for g in tu.functions.values():
+        if g.get('recid') != rec['id'] or tu.body(g) is None or g.get('ctor') or g.get('dtor'):
+            continue
+        for x in tu.walk(tu.body(g)):
+            if x.get('kind') == 'CXXMemberCallExpr' and strip_targs(tu.sd(x).get('q', '')).endswith('range_t::extend'):
+                _, o_, _a = tu.call_parts(x)
+                o_ = tu.strip(o_) if o_ is not None else None
+                if o_ is not None and o_.get('kind') == 'MemberExpr' and o_.get('name') == fld:
+                    extends += 1
+            if x.get('kind') == 'BinaryOperator' and x.get('opcode') in ('=', '+=', '-='):
+                l_ = tu.strip(tu.kids(x)[0])
+                while l_ is not None and l_.get('kind') == 'MemberExpr' and l_.get('name') != fld and tu.kids(l_):
+                    l_ = tu.strip(tu.kids(l_)[0])
+                if l_ is not None and l_.get('kind') == 'MemberExpr' and l_.get('name') == fld:
+                    others += 1
+    if shared:
+        return ('undecided', 'the accumulating functor is handed to %s: concurrent updates of its member are not analysed in this shape' % shared)
+    if extends and not others:
+        return ('ok', 'accumulates in member `%s` of a local functor object passed to for_each; every visited value goes through '
+                'range_t::extend (min / max on both bounds); seed: %s' % (fld, seed))
+    return ('undecided', 'member `%s` of the functor is updated by something other than range_t::extend' % fld)
+
+
 def check_value_range(ctx, tu):
     R = 'R-C17-6'
     ctx.describe(R, 'getValueRange: after each visited value t the running range satisfies lower <= t <= upper (extend(), two independent '
@@ -1749,7 +1916,15 @@ def check_value_range(ctx, tu):
                     if x.get('kind') == 'DeclRefExpr' and x.get('referencedDecl', {}).get('id') in ranges:
                         rv = ranges[x['referencedDecl']['id']]
         if rv is None:
-            ctx.undecided(R, inst, 'no local range_t found', tu.fn_loc(f))
+            verdict = functor_value_range(tu, f, body)
+            if verdict is None:
+                ctx.undecided(R, inst, 'no local range_t found', tu.fn_loc(f))
+            elif verdict[0] == 'ok':
+                ctx.ok(R, inst, verdict[1], tu.fn_loc(f))
+            elif verdict[0] == 'violation':
+                ctx.violation(R, inst, verdict[1], tu.fn_loc(f), key=key + verdict[2])
+            else:
+                ctx.undecided(R, inst, verdict[1], tu.fn_loc(f))
             continue
         seed = 'empty'
         seed_var = rv
